@@ -129,7 +129,7 @@ def rec(matches):
 
 def plan(tier, seed):
     n = 14 if tier == "quick" else 46
-    return [{"kind": ["std", "ext", "ext"][i % 3], "n": 600 if tier == "quick" else 3000} for i in range(n)]
+    return [{"kind": "shared", "n": 150 if tier == "quick" else 800}, {"kind": "shared", "n": 150 if tier == "quick" else 800}] + [{"kind": ["std", "ext", "ext"][i % 3], "n": 600 if tier == "quick" else 3000} for i in range(n)]
 
 
 def install():
@@ -177,6 +177,52 @@ def make_flavour(r, doc, flavour, yields_rng, log):
     return wrap(doc, Plan(faults, yields_rng, log))
 
 
+def run_shared(ctx, text, hist, case=None):
+    """One compiled query, several documents: evaluated one after another through the sync API,
+    then all at once through the async API on one loop with yields inside the item getters."""
+    import random
+
+    import jsonpath
+
+    c = impl.call(jsonpath.compile, text)
+    if not c.ok:
+        return
+    p = c.value
+    ctx.evaluation()
+    case = case or {"kind": "shared", "text": text, "hist": hist}
+    sync = []
+    for doc, ex in hist:
+        d = wrap(doc, Plan({}, None, None))
+        kw = {"filter_context": ex} if ex is not None else {}
+        o = impl.call(lambda: rec(p.finditer(d, **kw)))
+        sync.append(("ok", o.value) if o.ok else ("raise", type(o.exc).__name__))
+    log = []
+    yr = random.Random(ctx.rng.random())
+
+    async def one(doc, ex, i):
+        asyncio.current_task()._verif_id = i
+        d = wrap(doc, Plan({}, yr, log))
+        kw = {"filter_context": ex} if ex is not None else {}
+        try:
+            return ("ok", rec([m async for m in await p.finditer_async(d, **kw)]))
+        except Exception as e:  # noqa: BLE001
+            return ("raise", type(e).__name__)
+
+    async def gathered():
+        return await asyncio.gather(*[one(doc, ex, i) for i, (doc, ex) in enumerate(hist)])
+
+    outs = asyncio.run(gathered())
+    ctx.case(h("shared", text, canon(hist)), any(s[0] == "ok" and s[1] for s in sync))
+    ctx.count("shared_compiled_concurrent_evaluations", len(hist))
+    ctx.count("getter_resumes_logged", len(log))
+    switches = sum(1 for a, b in zip(log, log[1:]) if a != b)
+    ctx.count("shared_task_switches_between_getter_calls", switches)
+    for i, (s, a) in enumerate(zip(sync, outs)):
+        if s != a:
+            ctx.violation("concurrent-async-evaluations-of-one-compiled-query-differ-from-sync", case, {"text": text, "doc_index": i, "sync": repr(s)[:400], "async": repr(a)[:400]})
+            return
+
+
 def run(spec, ctx):
     import random
 
@@ -185,6 +231,15 @@ def run(spec, ctx):
     install()
     r = ctx.rng
     env = jsonpath.DEFAULT_ENV
+    if spec.get("kind") == "shared":
+        from .c09 import gen_case as gen_hist_case
+
+        for _ in range(spec["n"]):
+            text, hist = gen_hist_case(r)
+            run_shared(ctx, text, hist)
+        for k, v in hooks.STATE.sel_matrix.items():
+            ctx.cell("H1_selector_x_kind", "|".join(k), v)
+        return
     cases = []
     for i in range(spec["n"]):
         text, docs = gen_case(r, spec["kind"])
@@ -288,6 +343,9 @@ def replay(case, ctx):
     import jsonpath
 
     install()
+    if case.get("kind") == "shared":
+        run_shared(ctx, case["text"], case["hist"], case)
+        return
     env = jsonpath.DEFAULT_ENV
     doc = case["doc"]
     if case["flavour"] == "plain":
